@@ -21,7 +21,7 @@ from oracle import a64, thumb
 a64.selftest()
 thumb.selftest()
 print('interpreter self-tests ok')
-for cfg in ('prod', 'san', 'p32', 'p64', 'prod-g', 'tsan'):
+for cfg in ('prod', 'san', 'p32', 'p64', 'prod-g', 'tsan', 'p64-O0', 'gcc-p64', 'p64-msan'):
     try:
         build.build_lib(cfg)
     except build.BuildError as e:
